@@ -89,9 +89,13 @@ class LdmHarness:
         if k == "add":
             return w.add(op[1], L.MSGS[op[2]](), op[3])
         if k == "add_nomaint":      # reference only: the insert step of a reactive add (collection is ordered separately)
+            # suppress the collection step through the public method only (robust against renamed internals)
             m = w.ldm.ldm_maintenance
-            m.last_trash_collection_time = self.s.now
-            return w.add(op[1], L.MSGS[op[2]](), op[3])
+            m.collect_trash = lambda: None
+            try:
+                return w.add(op[1], L.MSGS[op[2]](), op[3])
+            finally:
+                del m.collect_trash
         if k == "upd":
             return w.update(op[1], op[2], L.MSGS[op[3]]())
         if k == "del":
